@@ -62,6 +62,7 @@ def plan(tier):
             sh = 1 if n <= 3 else NSHARD
             units += [('terms', tier, sort, n, k, sh) for k in range(sh)]
     units += [('matrix', tier, k, 32) for k in range(32)]
+    units += [('c08family', tier, k, 16) for k in range(16)]
     for n in range(1, 6 if tier == 'quick' else 7):
         sh = 1 if n <= 4 else NSHARD
         units += [('boolfrag', tier, n, k, sh) for k in range(sh)]
@@ -303,6 +304,14 @@ def run(unit):
             if i % shards != k:
                 continue
             process_term(t, 'B', r, i)
+    elif what == 'c08family':
+        from hplmc.checks import c08
+
+        _, _, k, shards = unit
+        for i, t in enumerate(c08.families(tier)):
+            if i % shards != k:
+                continue
+            process_term(t, 'B' if c08._is_bool(t) else 'N', r, i)
     elif what == 'matrix':
         _, _, k, shards = unit
         for i, t in enumerate(function_matrix()):
@@ -349,7 +358,7 @@ def replay(w):
 def describe(tier):
     b = bounds(tier)
     return {
-        'rule': f"(a) every accepted Bool/Num/Str term with <= {b['nodes']} nodes of the C06 grammar (every expression node kind) as expression and predicate; (b) each of the 27 built-in functions x 27 argument shapes (number / string / bool literals, fields, alias fields, message field, variable, sets of literals / with fields / singleton, ranges incl. reversed, empty and with non-literal bounds, arrays, arithmetic) alone and in 16 contexts (either side of 3 comparisons, arithmetic, unary minus, conjunction with an alias atom, set member); (b') every term with <= 5 (thorough 6) nodes of the boolean + quantifier fragment with alias atoms (the shapes the quantifier-splitting code of split_and / refactor_reference works on); (c) every property skeleton (widths <= {b['max_width']}) x 6 decorations. Calls: simplify, split_and, refactor_reference (A, C), replace_this_with_var (Z, A), replace_var_with_this (A, v), get_conjuncts, get_disjuncts, canonical_form. A state = one accepted AST; a transition = one call.",
+        'rule': f"(a) every accepted Bool/Num/Str term with <= {b['nodes']} nodes of the C06 grammar (every expression node kind) as expression and predicate; (b) each of the 27 built-in functions x 27 argument shapes (number / string / bool literals, fields, alias fields, message field, variable, sets of literals / with fields / singleton, ranges incl. reversed, empty and with non-literal bounds, arrays, arithmetic) alone and in 16 contexts (either side of 3 comparisons, arithmetic, unary minus, conjunction with an alias atom, set member); (b') every term with <= 5 (thorough 6) nodes of the boolean + quantifier fragment with alias atoms (the shapes the quantifier-splitting code of split_and / refactor_reference works on); (b'') the shape-directed families of C08; (c) every property skeleton (widths <= {b['max_width']}) x 6 decorations. Calls: simplify, split_and, refactor_reference (A, C), replace_this_with_var (Z, A), replace_var_with_this (A, v), get_conjuncts, get_disjuncts, canonical_form. A state = one accepted AST; a transition = one call.",
         'bounds': b,
         'exhaustive': True,
         'assumptions': [
